@@ -155,6 +155,8 @@ def run(ctx):
     ctx.explanation = __doc__
     ctx.rule = "instances = merge: pass/shape facts + 6 kinds; in: 6 haystack kinds × needle kinds + unit taint; membership equality: 36 kind pairs; non-trivial = specialisation / def-use"
     ctx.trusted = ["serde_json::Value::clone is structural", "str::contains is substring containment", "serde_json::Map::get / len"]
+    from . import manifest as _MF
+    _MF.same_library_clause(ctx, "K3.number-model")
     cfgs = ["default"] if ctx.tier == "quick" else ["default", "python", "wasm"]
     for cfg in cfgs:
         facts = ctx.facts(cfg)
